@@ -527,73 +527,93 @@ class XPathToken(Token[ta.XPathTokenType]):
         """
         left_values: Any
         right_values: Any
-        msg = "cannot compare {!r} and {!r}"
 
         if self.parser.version == '1.0':
             yield from self._iter_xpath1_comparison_data(context)
             return
         elif self.parser.compatibility_mode:
-            left_values = [x for x in self._items[0].atomization(context)]
-            right_values = [x for x in self._items[1].atomization(context)]
-            # Boolean comparison if one of the results is a single boolean value (1.)
-            try:
-                if isinstance(left_values[0], bool):
-                    if len(left_values) == 1:
-                        yield left_values[0], self.boolean_value(right_values)
-                        return
-                if isinstance(right_values[0], bool):
-                    if len(right_values) == 1:
-                        yield self.boolean_value(left_values), right_values[0]
-                        return
-            except IndexError:
+            left_values = [x for x in self._items[0].select(copy(context))]
+            right_values = [x for x in self._items[1].select(copy(context))]
+
+            # If an operand is a single boolean value the other operand is converted
+            # to a boolean by taking its effective boolean value (1.)
+            if len(left_values) == 1 and isinstance(left_values[0], bool):
+                yield left_values[0], self.boolean_value(right_values)
+                return
+            elif len(right_values) == 1 and isinstance(right_values[0], bool):
+                yield self.boolean_value(left_values), right_values[0]
                 return
 
-            # Converts to float for lesser-greater operators (3.)
+            # Atomization of the operands (2.)
+            left_values = [v for x in left_values for v in self.atomize_item(x)]
+            right_values = [v for x in right_values for v in self.atomize_item(x)]
+
+            # Converts to xs:double with fn:number() for lesser-greater operators (3.)
             if self.symbol in ('<', '<=', '>', '>='):
-                yield from product(map(float, left_values), map(float, right_values))
+                yield from product(
+                    map(self.number_value, left_values), map(self.number_value, right_values)
+                )
                 return
+
+            # If at least one of the values of a couple is numeric then both
+            # values are converted to xs:double using fn:number() (4a.)
+            for op1, op2 in product(left_values, right_values):
+                if isinstance(op1, bool) or isinstance(op2, bool):
+                    yield from self._iter_comparison_couple(op1, op2, context)
+                elif isinstance(op1, (int, float, decimal.Decimal)) \
+                        or isinstance(op2, (int, float, decimal.Decimal)):
+                    yield self.number_value(op1), self.number_value(op2)
+                else:
+                    yield from self._iter_comparison_couple(op1, op2, context)
+            return
         else:
             left_values = self._items[0].atomization(context)
             right_values = self._items[1].atomization(context)
 
         for op1, op2 in product(left_values, right_values):
-            match op1:
-                case str() | AnyURI():
-                    if not isinstance(op2, (str, UntypedAtomic, AnyURI)):
-                        raise TypeError(msg.format(type(op1), type(op2)))
-                case bool():
-                    if isinstance(op2, (str, Integer, AbstractQName, AnyURI)):
-                        raise TypeError(msg.format(type(op1), type(op2)))
-                case Integer():
-                    if isinstance(op2, (str, AbstractQName, AnyURI, bool)):
-                        raise TypeError(msg.format(type(op1), type(op2)))
-                case float():
-                    if isinstance(op2, decimal.Decimal):
-                        yield op1, float(op2)
-                        continue
-                    elif isinstance(op2, (str, AbstractQName, AnyURI, bool)):
-                        raise TypeError(msg.format(type(op1), type(op2)))
-                case decimal.Decimal():
-                    if isinstance(op2, float):
-                        yield float(op1), op2
-                        continue
-                    elif isinstance(op2, (str, AbstractQName, AnyURI, bool)):
-                        raise TypeError(msg.format(type(op1), type(op2)))
-                case AbstractQName():
-                    if not isinstance(op2, (AbstractQName, UntypedAtomic)):
-                        raise TypeError(msg.format(type(op1), type(op2)))
-                case AbstractDateTime():
-                    if isinstance(op2, AbstractDateTime) and \
-                            context is not None and context.timezone is not None:
-                        # Values without a timezone are compared using the implicit timezone
-                        if op1.tzinfo is None:
-                            op1 = copy(op1)
-                            op1.tzinfo = context.timezone
-                        if op2.tzinfo is None:
-                            op2 = copy(op2)
-                            op2.tzinfo = context.timezone
+            yield from self._iter_comparison_couple(op1, op2, context)
 
-            yield op1, op2
+    def _iter_comparison_couple(self, op1: Any, op2: Any, context: ta.ContextType) \
+            -> Iterator[Any]:
+        """Checks and adapts a couple of atomic values for a general comparison."""
+        msg = "cannot compare {!r} and {!r}"
+        match op1:
+            case str() | AnyURI():
+                if not isinstance(op2, (str, UntypedAtomic, AnyURI)):
+                    raise TypeError(msg.format(type(op1), type(op2)))
+            case bool():
+                if isinstance(op2, (str, Integer, AbstractQName, AnyURI)):
+                    raise TypeError(msg.format(type(op1), type(op2)))
+            case Integer():
+                if isinstance(op2, (str, AbstractQName, AnyURI, bool)):
+                    raise TypeError(msg.format(type(op1), type(op2)))
+            case float():
+                if isinstance(op2, decimal.Decimal):
+                    yield op1, float(op2)
+                    return
+                elif isinstance(op2, (str, AbstractQName, AnyURI, bool)):
+                    raise TypeError(msg.format(type(op1), type(op2)))
+            case decimal.Decimal():
+                if isinstance(op2, float):
+                    yield float(op1), op2
+                    return
+                elif isinstance(op2, (str, AbstractQName, AnyURI, bool)):
+                    raise TypeError(msg.format(type(op1), type(op2)))
+            case AbstractQName():
+                if not isinstance(op2, (AbstractQName, UntypedAtomic)):
+                    raise TypeError(msg.format(type(op1), type(op2)))
+            case AbstractDateTime():
+                if isinstance(op2, AbstractDateTime) and \
+                        context is not None and context.timezone is not None:
+                    # Values without a timezone are compared using the implicit timezone
+                    if op1.tzinfo is None:
+                        op1 = copy(op1)
+                        op1.tzinfo = context.timezone
+                    if op2.tzinfo is None:
+                        op2 = copy(op2)
+                        op2.tzinfo = context.timezone
+
+        yield op1, op2
 
     def _iter_xpath1_comparison_data(self, context: ta.ContextType) -> Iterator[Any]:
         """
